@@ -336,6 +336,78 @@ func RunStraddle(kind string) (run *ParkRun, ok bool, err error) {
 		}
 		answer(at(18), at(19), at(20))
 		run.Note = "two Head() calls delayed after their answers 18, 19; gossip 21; the calls go on; the range answer [18 19 20] arrives with the shim head at 19"
+	case "lock":
+		// syncStore.Append is one step with respect to other Appends (/repo 40dc6a8): a Head() call learning 18 is
+		// preempted INSIDE syncStore.Append; a second Head() call (also 18) has to wait for it.  If it does not (no lock),
+		// two more calls learn 19 and 20 before the first goes on and puts its older head back into the shim.
+		a := at(18)
+		a.G = NewParkGate("syncStore")
+		g.mu.Lock()
+		g.head = a
+		g.mu.Unlock()
+		resA := make(chan error, 1)
+		results = append(results, resA)
+		go func() { _, err := sy.Head(context.Background()); resA <- err }()
+		select {
+		case <-a.G.Parked:
+		case <-time.After(2 * time.Second):
+			return nil, false, nil
+		}
+		time.Sleep(10 * time.Millisecond)
+		headCall := func(n uint64) chan error {
+			g.mu.Lock()
+			g.head = at(n)
+			g.mu.Unlock()
+			res := make(chan error, 1)
+			go func() { _, err := sy.Head(context.Background()); res <- err }()
+			return res
+		}
+		returned := func(res chan error, d time.Duration) bool {
+			select {
+			case err := <-res:
+				res <- err
+				return true
+			case <-time.After(d):
+				return false
+			}
+		}
+		actHead := func(n uint64) string { return fmt.Sprintf("(DHead (Some %s))", term(at(n))) }
+		resB := headCall(18)
+		results = append(results, resB)
+		if !returned(resB, 150*time.Millisecond) {
+			// the second call waits: the first goes on, both finish
+			close(a.G.Rel)
+			returned(resA, 3*time.Second)
+			returned(resB, 3*time.Second)
+			settle()
+			obs(actHead(18), 0)
+			obs(actHead(18), 0)
+			for n := uint64(19); n <= 20; n++ {
+				r := headCall(n)
+				results = append(results, r)
+				returned(r, 3*time.Second)
+				settle()
+				obs(actHead(n), 0)
+			}
+			run.Note = "a Head() call parked inside syncStore.Append; a second one waited for it (lock held); then 19 and 20 are learned"
+		} else {
+			// no lock: the lost update
+			settle()
+			obs(actHead(18), 0)
+			obs(actHead(18), 0)
+			for n := uint64(19); n <= 20; n++ {
+				r := headCall(n)
+				results = append(results, r)
+				returned(r, 3*time.Second)
+				settle()
+				obs(actHead(n), 0)
+			}
+			close(a.G.Rel)
+			returned(resA, 3*time.Second)
+			settle()
+			run.Note = "a Head() call parked inside syncStore.Append did NOT exclude other Appends: 18, 19, 20 were learned meanwhile, then it stored its older head"
+		}
+		gossip(20) // known: refused; its observation shows the final state
 	default:
 		return nil, false, fmt.Errorf("unknown kind %q", kind)
 	}
